@@ -61,6 +61,7 @@ class Engine(Conc, Executor, Calls):
         self.fsm = None
         self._index()
         self.index_locks()
+        self.index_lockorder()
         self._scan_global_writes()
 
     # ------------------------------------------------------------------ contract index
@@ -602,6 +603,9 @@ class Engine(Conc, Executor, Calls):
                     o.unknown.append({"reason": "spec error: %s" % e})
                     continue
                 self.record(o, st, goal, blk["instrs"][0].get("pos") if blk["instrs"] else None)
+            if fr.depth == 0:
+                cur = self.loop_may.get(loop["ordinal"], (frozenset(), frozenset()))
+                self.loop_may[loop["ordinal"]] = (cur[0] | (st.ghost.get("acquired") or frozenset()), cur[1] | (st.ghost.get("eg_joined") or frozenset()))
             return [Outcome("loopend", st)]
         # first arrival: establish, havoc, assume
         idx = blk["preds"].index(fr.prev)
@@ -684,6 +688,10 @@ class Engine(Conc, Executor, Calls):
         if vk is not None:
             st.ghost[vk] = (fresh_name("vis"), [])
             st.ghost["last_visited"] = vk
+        known = self.loop_may_prev.get(loop["ordinal"]) if fr.depth == 0 else None
+        if known:
+            st.ghost["acquired"] = (st.ghost.get("acquired") or frozenset()) | known[0]
+            st.ghost["eg_joined"] = (st.ghost.get("eg_joined") or frozenset()) | known[1]
         for cl in invs:
             try:
                 st.assume(self.eval_loop_clause(fr, st, cl))
@@ -724,6 +732,26 @@ class Engine(Conc, Executor, Calls):
 
     # ------------------------------------------------------------------ per function verification
     def verify_function(self, decl, only_props=None):
+        """may-effects of loop bodies cut by invariants (lock classes acquired, goroutines to be joined) are learnt in a first
+        pass and assumed to have happened "in earlier iterations" in a second one"""
+        self.loop_may_prev = {}
+        before = set(self.obls)
+        info = self._verify_function_once(decl, only_props)
+        for _ in range(2):
+            may = self.loop_may
+            if not may or may == self.loop_may_prev:
+                break
+            for k in [k for k in self.obls if k not in before]:
+                del self.obls[k]
+            self.loop_may_prev = may
+            info = self._verify_function_once(decl, only_props)
+        return info
+
+    loop_may = {}
+    loop_may_prev = {}
+
+    def _verify_function_once(self, decl, only_props=None):
+        self.loop_may = {}
         ir = self.ir
         full = decl.attrs["full"]
         fn = ir.funcs.get(full)
@@ -755,6 +783,8 @@ class Engine(Conc, Executor, Calls):
         ctx.name_types = name_types
         for cl in decl.get("requires") + decl.get("assume"):
             st.assume(to_bool(ctx.eval(cl.ast)))
+        self.enter_locked(None, st, decl, full, fvs + args)
+        entry_held = [h[0] for h in st.held]
         o = self.obl("requires-sat", "vacuity")
         o.instances += 1
         if st.feasible():
@@ -788,6 +818,7 @@ class Engine(Conc, Executor, Calls):
             o.proved += 1
         rtypes = [r["type"] for r in fn["results"]]
         mods = decl.get("modifies")
+        self.lock_effect_obligations(decl, fn, rets, entry_held)
         for out in rets:
             s2 = out.st
             rn = dict(names)
@@ -869,6 +900,78 @@ class Engine(Conc, Executor, Calls):
         self.cur = None
         return info
 
+    def lock_effect_obligations(self, decl, fn, rets, entry_held):
+        """every lock class acquired on some path is declared (`acquires`); no lock is still held on return;
+        the declared effect refines the effect declared on every interface method this method implements"""
+        if self.quiet:
+            return
+        declared = decl.attrs.get("acq") or set()
+        oa = self.obl("lock", "acquires-declared", self.lock_props())
+        orl = self.obl("lock", "all-released", self.lock_props())
+        extra_all, where = set(), None
+        for out in rets:
+            acq = out.st.ghost.get("acquired") or frozenset()
+            extra = set(c for c in acq if c not in declared)
+            if extra - extra_all:
+                where = out.info
+            extra_all |= extra
+            orl.instances += 1
+            left = [h for h in out.st.held if h[0] not in entry_held]
+            if left:
+                orl.failed.append({"pos": out.info, "reason": "returns with %s still held" % ", ".join(str(h[4]) for h in left)})
+            else:
+                orl.proved += 1
+        if rets:
+            oa.instances += 1
+            if extra_all:
+                oa.failed.append({"pos": where, "undeclared": sorted(extra_all),
+                                  "reason": "acquires %s, not listed in the function's `acquires` clause" % ", ".join(sorted(extra_all))})
+            else:
+                oa.proved += 1
+        if not rets:
+            oa.instances += 1; oa.proved += 1
+            orl.instances += 1; orl.proved += 1
+        for tname in decl.attrs.get("refines") or []:
+            tdecl = self.by_func.get(tname) or self.contract_for(tname)
+            o = self.obl("lock", "refines:%s" % tname, self.lock_props())
+            o.instances += 1
+            if tdecl is None or "acq" not in tdecl.attrs:
+                o.failed.append({"reason": "no contract with an `acquires` clause named %s" % tname})
+            else:
+                extra = sorted(declared - tdecl.attrs["acq"])
+                if extra:
+                    o.failed.append({"reason": "acquires %s, which the contract of %s does not allow" % (", ".join(extra), tname)})
+                else:
+                    o.proved += 1
+        # refinement of interface effects
+        if fn.get("recv"):
+            import re as _re
+            m = _re.match(r"^\((\*?)(.*)\)\.(\w+)$", fn["name"])
+            if m:
+                T = m.group(2)
+                for full, idecl in self.by_func.items():
+                    m2 = _re.match(r"^\((.*)\)\.(\w+)$", full)
+                    if not m2 or m2.group(2) != m.group(3) or "acq" not in idecl.attrs or idecl is decl:
+                        continue
+                    it = m2.group(1)
+                    if it not in self.ir.types:
+                        try:
+                            it = self.resolve_type_name(it, idecl.pkg)
+                        except SpecError:
+                            continue
+                    if not self.ir.is_iface(it):
+                        continue
+                    impl = self.ir.types.get(T, {}).get("implements") or []
+                    if it not in impl and "*" + it not in impl:
+                        continue
+                    o = self.obl("lock", "refines:%s.%s" % (short(it).rsplit("/", 1)[-1], m.group(3)), self.lock_props())
+                    o.instances += 1
+                    extra = sorted(declared - idecl.attrs["acq"])
+                    if extra:
+                        o.failed.append({"reason": "acquires %s, which the contract of (%s).%s does not allow" % (", ".join(extra), short(it), m.group(3))})
+                    else:
+                        o.proved += 1
+
     def unframed_writes(self, st, decl, ctx):
         allowed = []
         for cl in decl.get("modifies"):
@@ -910,11 +1013,73 @@ class Engine(Conc, Executor, Calls):
 
 
 def _coverage_method():
+    def verify_accessor_coverage(self, decl):
+        """coverage [label] {C20}: accessors -- the ownership and lock obligations are only as complete as the set of functions
+        under contract: every function of the module (outside its test helpers) that touches a guarded or atomic field of an object
+        it did not allocate itself, takes one of the declared locks, or implements an interface method whose lock effect is
+        declared, must be a function under contract (and so is verified with those obligations on)"""
+        ir = self.ir
+        self.cur = {"short": "module.locks", "props": set(decl.tags), "safety_props": set(decl.tags), "decl": decl, "fn": None}
+        under = set()
+        for d in self.decls:
+            if d.kind == "func" and not ("assumed" in d.flags or "opaque" in d.flags or ("effectfree" in d.flags and not d.tags)):
+                under.add(d.attrs.get("full"))
+        guarded = dict(self.guard_of)
+        for k, c in self.atomic_fields.items():
+            guarded[k] = "atomic"
+        lockfields = set((T, lk) for T, m in self.lock_decls.items() for lk in m)
+        per = {}
+        for name, fn in ir.funcs.items():
+            if any(x in fn["pkg"] for x in self.TESTISH) or name.endswith(".init") or ".init#" in name:
+                continue
+            allocs = set()
+            for b in fn["blocks"]:
+                for i in b["instrs"]:
+                    if i["op"] == "Alloc":
+                        allocs.add(i.get("name"))
+                    if i["op"] in ("FieldAddr", "Field"):
+                        aux = i.get("aux") or {}
+                        k = (aux.get("struct"), aux.get("field"))
+                        if (k in guarded or k in lockfields) and i["args"][0].get("n") not in allocs:
+                            per.setdefault(k, set()).add(name)
+        for k in sorted(set(guarded) | lockfields, key=str):
+            o = self.obl("coverage", "accessors:%s.%s" % (short(k[0]).rsplit("/", 1)[-1], k[1]), decl.tags)
+            o.instances += 1
+            missing = sorted(short(f) for f in per.get(k, ()) if f not in under)
+            if missing:
+                o.failed.append({"missing": missing, "reason": "touched by %s, which %s not under contract" % (", ".join(missing), "is" if len(missing) == 1 else "are")})
+            else:
+                o.proved += 1
+        # implementations of interface methods with a declared lock effect
+        import re as _re
+        for full, idecl in self.by_func.items():
+            m2 = _re.match(r"^\((.*)\)\.(\w+)$", full)
+            if not m2 or "acq" not in idecl.attrs or idecl.kind != "extern":
+                continue
+            it = m2.group(1)
+            if it not in ir.types:
+                try:
+                    it = self.resolve_type_name(it, idecl.pkg)
+                except SpecError:
+                    continue
+            if not ir.is_iface(it):
+                continue
+            o = self.obl("coverage", "implementations:%s.%s" % (short(it).rsplit("/", 1)[-1], m2.group(2)), decl.tags)
+            o.instances += 1
+            missing = sorted(short(f) for f in self.implementors(it, m2.group(2)) if f not in under)
+            if missing:
+                o.failed.append({"missing": missing, "reason": "implemented by %s, not under contract" % ", ".join(missing)})
+            else:
+                o.proved += 1
+        self.cur = None
+
     def verify_coverage(self, decl):
         """coverage [label] {Cxx}: T1, T2 -- structural obligation on the generated cbor-gen codecs: every declared field is
         written under its own key, the map header counts the fields, and the decoder has a case that stores into it"""
         ir = self.ir
         cl = decl.clauses[0]
+        if cl.text.strip() == "accessors":
+            return self.verify_accessor_coverage(decl)
         self.cur = {"short": short(decl.pkg) + ".codec", "props": set(decl.tags), "safety_props": set(decl.tags), "decl": decl, "fn": None}
         for tn in [x.strip() for x in cl.text.split(",") if x.strip()]:
             T = self.resolve_type_name(tn, decl.pkg)
@@ -970,7 +1135,7 @@ def _coverage_method():
             extra = [k for k in ma if k not in fields]
             o.solver = "structural (SSA scan)"
         self.cur = None
-    return verify_coverage
+    return verify_coverage, verify_accessor_coverage
 
 
 Engine.verify_coverage = None
@@ -1145,4 +1310,4 @@ def first_model(st):
 
 
 Engine.verify_lemma, Engine.spec_type = _lemma_methods()
-Engine.verify_coverage = _coverage_method()
+Engine.verify_coverage, Engine.verify_accessor_coverage = _coverage_method()
